@@ -315,7 +315,7 @@ pub fn len(c: Code, v: u64) -> usize {
 /// run without a terminating one, shift amounts out of range).
 pub fn decode(c: Code, b: &BitVec, pos: usize, e: En, zero_ext: bool) -> Option<(u64, usize)> {
     let mut p = pos;
-    let avail = |p: usize, n: usize| zero_ext || p + n <= b.len();
+    let avail = |p: usize, n: usize| n == 0 || zero_ext || p + n <= b.len();
     let unary = |p: usize| -> Option<(u64, usize)> {
         let one = b.next_one(p)?;
         Some(((one - p) as u64, one - p + 1))
